@@ -5,6 +5,9 @@ EXTENDS Sorter
 EcusVal == {"A", "B"}
 LcOfEcuVal == [e \in {"A", "B"} |-> IF e = "A" THEN {1, 2} ELSE {3}]
 LcStartVal == (1 :> 100) @@ (2 :> 190) @@ (3 :> 150)
+\* a single ECU switching between two lifecycles (deeper behaviours for the W = 3 window roll-over)
+EcusOne == {"A"}
+LcOfEcuOne == [e \in {"A"} |-> {1, 2}]
 \* alphabets with negative numbers (a .cfg cannot hold them): reception deltas incl. going backwards; raw delays incl.
 \* a timestamp one tick beyond the reception time (-1), the bound itself (D = 2) and beyond it (5)
 RxBack == {-1, 0, 1, 3}
